@@ -21,7 +21,7 @@ fn spec() -> Spec {
             Kind { name: "variants", quick: 40_000, thorough: 800_000, serial: false },
             Kind { name: "mutants", quick: 80_000, thorough: 3_000_000, serial: false },
         ],
-        rule: "roundtrip: generated parameter sets (all geometry classes, integral-valued lengths such as b = 0 or c1 = 1, negative values, dof 5/6, J6 sign 0, offsets none / right angles / arbitrary) -> to_yaml() -> file -> from_yaml_file: geometry, signs, dof identical, offsets within 0.5e-4 degree. variants: files written by the harness in the documented format with integer vs real literals, deg(x) vs radians, 5- or 6-element arrays, dof nested / top-level / absent, comments, shuffled key order: must parse to the written values. mutants: valid files truncated, with deleted / duplicated lines, type swaps, random or non-UTF8 bytes, empty: Err or Ok, never a panic. non-trivial = file parsed (roundtrip/variants) or mutant differs from its original (mutants); distinct = hash(file text) Workload additions: dof-6 sets with a blocked sixth sign; offsets that cancel exactly; valid UTF-8 multi-byte scalars; integers around every machine width as scalar replacements. Rounds 7-9: non-ASCII comments in the mutated files; huge integral lengths.",
+        rule: "roundtrip: generated parameter sets (all geometry classes, integral-valued lengths such as b = 0 or c1 = 1, negative values, dof 5/6, J6 sign 0, offsets none / right angles / arbitrary) -> to_yaml() -> file -> from_yaml_file: geometry, signs, dof identical, offsets within 0.5e-4 degree. variants: files written by the harness in the documented format with integer vs real literals, deg(x) vs radians, 5- or 6-element arrays, dof nested / top-level / absent, comments, shuffled key order: must parse to the written values. mutants: valid files truncated, with deleted / duplicated lines, type swaps, random or non-UTF8 bytes, empty: Err or Ok, never a panic. non-trivial = file parsed (roundtrip/variants) or mutant differs from its original (mutants); distinct = hash(file text) Workload additions: dof-6 sets with a blocked sixth sign; offsets that cancel exactly; valid UTF-8 multi-byte scalars; integers around every machine width as scalar replacements. Rounds 7-9: non-ASCII comments in the mutated files; huge integral lengths. Round 10: files in the documented format with a comment block of 3..40 KiB; link lengths replaced by values that are not numbers (text, null, empty, list, map, boolean, quoted, decimal comma) must be refused with an error value.",
         assumptions: vec![
             "the documented place of the dof entry is the top level (doc comment of from_yaml_file and to_yaml output); the nested place used by the bundled 5-DOF fixture is also accepted",
             "files are written under /verif/target/tmp/c19 and removed after each case",
@@ -302,7 +302,26 @@ fn write_variant(rng: &mut Rng) -> Written {
 }
 
 fn variants(idx: u64, rng: &mut Rng, mon: &mut Mon) {
-    let w = write_variant(rng);
+    let mut w = write_variant(rng);
+    // (one file in twelve carries a long comment block - a licence header, calibration notes - of 3 .. 40 KiB at a
+    // line boundary: the file is then larger than any single read buffer)
+    if rng.usize(12) == 0 {
+        let mut lines: Vec<String> = w.text.lines().map(|l| l.to_string()).collect();
+        let at = if rng.bool(0.5) { 0 } else { rng.usize(lines.len() + 1) };
+        let total = rng.logu(3_000.0, 40_000.0) as usize;
+        let mut block: Vec<String> = vec![];
+        let mut n = 0;
+        while n < total {
+            let l = format!("# {}", "calibration notes, do not edit; ".repeat(1 + rng.usize(3)));
+            n += l.len() + 1;
+            block.push(l);
+        }
+        for (i, l) in block.into_iter().enumerate() {
+            lines.insert(at + i, l);
+        }
+        w.text = lines.join("\n") + "\n";
+        w.features.push("long_comment_block");
+    }
     let res = with_file(w.text.as_bytes(), |path| guarded(|| Parameters::from_yaml_file(path)));
     for f in &w.features {
         mon.count(&format!("variants.feature.{}", f));
@@ -372,6 +391,7 @@ fn mutants(idx: u64, rng: &mut Rng, mon: &mut Mon) {
     };
     let mut bytes = base.clone().into_bytes();
     let mkind = rng.usize(11);
+    let mut non_numeric_length: Option<String> = None;
     let mname = ["truncate", "delete_line", "duplicate_line", "type_swap", "random_bytes", "empty", "non_utf8", "only_comments", "multi_doc", "structure_swap", "array_length"][mkind];
     match mkind {
         0 => {
@@ -400,10 +420,11 @@ fn mutants(idx: u64, rng: &mut Rng, mon: &mut Mon) {
                 let body: String = (0..(1 + rng.usize(9))).map(|_| *rng.pick(&alphabet)).collect();
                 match rng.usize(3) { 0 => format!("\"{}\"", body), 1 => format!("deg({})", body), _ => body }
             };
-            let fixed = *rng.pick(&["abc", "[1, 2]", "{x: 1}", "~", "true", "'0.5'", "1e400", "-", ".nan", "deg(", "deg(x)", "deg()", "-90°", "90°", "abc€de", "\"π/2 \"", "deg(90°)", "DEG(90)", "1,5", "½",
+            let fixed = *rng.pick(&["abc", "[1, 2]", "{x: 1}", "~", "", "true", "'0.5'", "1e400", "-", ".nan", "deg(", "deg(x)", "deg()", "-90°", "90°", "abc€de", "\"π/2 \"", "deg(90°)", "DEG(90)", "1,5", "½",
                 // integers around every machine width (an entry such as dof is narrowed on the way in)
                 "127", "128", "130", "134", "-125", "-128", "-129", "255", "256", "384", "32768", "65536", "2147483648", "4294967296", "9223372036854775680", "9223372036854775807", "-9223372036854775808", "18446744073709551616"]);
-            let repl: &str = if rng.bool(0.4) { mon.count("mutants.multibyte_scalars"); &unicode } else { fixed };
+            let from_fixed = !rng.bool(0.4);
+            let repl: &str = if !from_fixed { mon.count("mutants.multibyte_scalars"); &unicode } else { fixed };
             let mut lines: Vec<String> = base.lines().map(|s| s.to_string()).collect();
             let cand: Vec<usize> = lines.iter().enumerate().filter(|(_, l)| l.contains(": ")).map(|(i, _)| i).collect();
             if !cand.is_empty() {
@@ -420,6 +441,11 @@ fn mutants(idx: u64, rng: &mut Rng, mon: &mut Mon) {
                     }
                     lines[k] = format!("{}[{}]", &lines[k][..inner_start - 1], items.join(","));
                 } else {
+                    // (a link length whose value is not a number at all: the file is malformed and must be refused)
+                    let key = lines[k][..pos].trim().to_string();
+                    if from_fixed && ["a1", "a2", "b", "c1", "c2", "c3", "c4"].contains(&key.as_str()) && ["abc", "[1, 2]", "{x: 1}", "~", "true", "'0.5'", "abc€de", "1,5", "½", "-90°", "deg(x)", ""].contains(&repl) {
+                        non_numeric_length = Some(key);
+                    }
                     lines[k] = format!("{}: {}", &lines[k][..pos], repl);
                 }
             }
@@ -499,6 +525,14 @@ fn mutants(idx: u64, rng: &mut Rng, mon: &mut Mon) {
             mon.held();
             mon.count("mutants.survived");
             mon.count(if r.is_ok() { "mutants.parsed_ok" } else { "mutants.returned_err" });
+            if let Some(key) = &non_numeric_length {
+                mon.count("mutants.non_numeric_lengths");
+                if r.is_ok() {
+                    mon.violation("mutants:accepted:non-numeric-length", "a file whose link length is not a number was accepted instead of yielding an error value", json!({"mutation": mname, "key": key, "file_bytes_lossy": String::from_utf8_lossy(&bytes)}));
+                } else {
+                    mon.held();
+                }
+            }
             if bytes != base.as_bytes() {
                 mon.nontrivial(hash_f64s(&[bytes.len() as f64, bytes.iter().map(|b| *b as f64).sum::<f64>(), crate::rng::hash_str(&String::from_utf8_lossy(&bytes)) as f64]));
             }
